@@ -39,7 +39,7 @@ func genSettings(r *rand.Rand, profile string) *node.Settings {
 	s.Interval = pick(r, []int64{int64(time.Second), int64(time.Minute), 5 * int64(time.Minute)})
 	s.MinFee = pick(r, []uint64{1, 2, 1000})
 	s.BlocksLimit = pick(r, []uint64{3, 4, 5, 7, 100, 100})
-	if profile == "catchup" {
+	if profile == "catchup" || profile == "agree" {
 		s.BlocksLimit = pick(r, []uint64{3, 4, 5, 7, 9, 100})
 	}
 	s.Genesis = pick(r, []uint64{10_000_000, 1_000_000_000, 100_000_000_000_000})
@@ -51,6 +51,40 @@ func genSettings(r *rand.Rand, profile string) *node.Settings {
 }
 
 func (sc *scenario) node(i int) *node.Node { return sc.w.Nodes[i] }
+
+// per-profile favoured templates (70 % of the draws); every profile still draws from the full lists
+var favTx = map[string][]string{
+	"value":  {"valid", "fee-exact", "fee-low", "fee-plus1", "overflow", "many-outputs", "consolidate", "zero-output"},
+	"spend":  {"valid", "double-spend", "same-input-twice", "spend-pooled", "spend-last-block", "duplicate", "bad-index", "unknown-ref"},
+	"owner":  {"valid", "bad-sig", "zero-sig", "wrong-owner", "foreign-sig", "unknown-ref"},
+	"shape":  {"valid", "ts-old", "ts-last", "ts-next", "ts-future"},
+	"income": {"valid", "yield-new", "yield-new", "yield-twice", "yield-registered"},
+	"alias":  {"valid", "yield-new", "yield-new", "yield-registered"},
+	"pool":   {"valid", "valid", "duplicate", "double-spend", "fee-low", "fee-exact", "ts-old", "ts-future", "ts-next", "ts-last", "same-input-twice"},
+	"agree":  {"valid", "valid", "fee-exact", "ts-last", "ts-next", "yield-new", "yield-registered", "consolidate", "zero-output", "spend-last-block", "spend-pooled"},
+}
+var favBreak = map[string][]string{
+	"value":  {"reward-plus1", "low-fee", "ok-fee"},
+	"spend":  {"double-spend", "unknown-input", "ok-fee"},
+	"owner":  {"bad-sig-tx", "steal", "ok-fee"},
+	"shape":  {"bad-ts", "no-reward", "two-rewards", "tx-future", "tx-old", "unlinked"},
+	"income": {"yield-unregistered", "yield-listed", "removed-listed"},
+	"fork":   {"ok-fee", "yield-listed", "removed-listed", "ok-fee"},
+}
+
+func (sc *scenario) txKind() string {
+	if f, ok := favTx[sc.profile]; ok && sc.rng.Intn(10) < 7 {
+		return pick(sc.rng, f)
+	}
+	return pick(sc.rng, txKinds)
+}
+
+func (sc *scenario) breakKind() string {
+	if f, ok := favBreak[sc.profile]; ok && sc.rng.Intn(10) < 7 {
+		return pick(sc.rng, f)
+	}
+	return pick(sc.rng, breakKinds)
+}
 
 func (sc *scenario) mark(s string) { sc.nontriv[s] = true }
 
@@ -594,7 +628,7 @@ func (sc *scenario) genNeighbours(n *node.Node, now int64) []trace.Neighbour {
 				if r.Intn(2) == 0 {
 					h = len(base) - 1 // most interesting: competitor to the tip / extension
 				}
-				kind := pick(r, breakKinds)
+				kind := sc.breakKind()
 				fill := r.Intn(3)
 				if r.Intn(3) == 0 {
 					fill = len(base) - h + r.Intn(2)
@@ -622,8 +656,8 @@ func (sc *scenario) run(maxOps int) {
 	for step := 0; step < maxOps && len(w.Failures) == 0; step++ {
 		n := pick(r, w.Nodes)
 		roll := r.Intn(100)
-		if sc.profile == "catchup" && n != w.Nodes[0] {
-			roll = 55 + r.Intn(20) // followers mostly sync / read
+		if sc.profile == "alias" && r.Intn(4) == 0 {
+			roll = 80 + r.Intn(8) // more registry refreshes
 		}
 		switch {
 		case roll < 22: // advance the clock and produce on the leader (or this node)
@@ -654,7 +688,7 @@ func (sc *scenario) run(maxOps int) {
 			if len(n.AllBlocks()) == 0 {
 				continue
 			}
-			kind := pick(r, txKinds)
+			kind := sc.txKind()
 			tx, k := sc.makeTx(n, kind)
 			if tx == nil {
 				continue
@@ -699,6 +733,280 @@ func (sc *scenario) run(maxOps int) {
 	}
 }
 
+func (sc *scenario) propFail(text string, op string) {
+	sc.w.Failures = append(sc.w.Failures, trace.Failure{Kind: "prop", Text: text, Line: len(sc.w.Lines) - 1, OpKind: op})
+}
+
+func sameChain(a, b *node.Node) bool {
+	x, y := a.AllBlocks(), b.AllBlocks()
+	if len(x) != len(y) {
+		return false
+	}
+	for i := range x {
+		if node.HashHex(x[i]) != node.HashHex(y[i]) {
+			return false
+		}
+	}
+	return true
+}
+
+func sameDerived(a, b *node.Node) string {
+	oa, _, _ := a.Observe()
+	ob, _, _ := b.Observe()
+	ja, _ := json.Marshal([]interface{}{oa.ById, oa.ByAddr, oa.Registered})
+	jb, _ := json.Marshal([]interface{}{ob.ById, ob.ByAddr, ob.Registered})
+	if string(ja) != string(jb) {
+		return "derived state differs"
+	}
+	return ""
+}
+
+var rejectionClasses = map[string]bool{"bad-prev-hash": true, "bad-block-ts": true, "future-block": true, "multi-reward": true, "tx-future": true,
+	"tx-old": true, "yield-unregistered": true, "no-reward": true, "reward-exceeds": true, "no-tx-id": true, "no-output-index": true,
+	"wrong-owner": true, "fee-negative": true, "fee-low": true, "overflow": true, "id-exists": true, "multi-income": true, "bad-signature": true,
+	"add-utxo-failed": true, "too-short": true, "fork": true}
+
+// catch-up rounds of follower f against server a; returns rounds used
+func (sc *scenario) catchUp(f, a *node.Node, now int64, maxRounds int) int {
+	for k := 1; k <= maxRounds; k++ {
+		sc.w.Sync(f, now, []trace.Neighbour{trace.Honest(a), trace.Honest(a)})
+		if sameChain(f, a) {
+			return k
+		}
+	}
+	return maxRounds + 1
+}
+
+func ceilDiv(a, b int) int { return (a + b - 1) / b }
+
+// profile "agree" (C05): every block the leader produces is offered to honest peers in the three
+// delivery contexts: extension of the tip, competitor to the peer's own tip, full re-sync.
+func (sc *scenario) runAgree(maxOps int) {
+	r := sc.rng
+	w := sc.w
+	S := w.S
+	a, f := w.Nodes[0], w.Nodes[1]
+	spare := 2
+	sc.clock = T0
+	w.Tick(a, sc.clock)
+	sc.clock += S.Interval
+	w.Tick(a, sc.clock)
+	w.Tick(f, T0) // private first block, then adopt the leader's chain
+	sc.catchUp(f, a, sc.clock, 3)
+	bound := func() int { return 2 + ceilDiv(len(a.AllBlocks()), int(S.BlocksLimit)-1) }
+	for step := 0; step < maxOps && len(w.Failures) == 0; step++ {
+		// some submissions on the leader
+		for k := r.Intn(4); k > 0; k-- {
+			tx, kind := sc.makeTx(a, sc.txKind())
+			if tx != nil {
+				v := w.Submit(a, tx)
+				w.Hist["tx:"+kind+"→"+v.Info["submit"]]++
+				if v.Info["submit"] == "admitted" {
+					sc.mark("admitted")
+				}
+			}
+		}
+		if r.Intn(4) == 0 {
+			var invalid []string
+			for _, wl := range w.Wallets {
+				if r.Intn(3) == 0 {
+					invalid = append(invalid, wl.Address)
+				}
+			}
+			w.RegSync(a, invalid, nil)
+		}
+		prev := a.AllBlocks()
+		sc.clock += S.Interval
+		// competitor context: a fresh peer takes the leader's previous chain, produces its own block at the same time
+		var g *node.Node
+		if spare < len(w.Nodes) && len(prev) >= 2 && S.BlocksLimit >= 3 {
+			g = w.Nodes[spare]
+			spare++
+			w.Tick(g, T0)
+			if sc.catchUp(g, a, sc.clock-S.Interval, bound()) > bound() {
+				g = nil // could not be set up (reported by C08's own check, not here)
+			}
+		}
+		v := w.Tick(a, sc.clock)
+		if v.Info["tick"] != "produced" {
+			continue
+		}
+		if v.Info["included"] != "0" {
+			sc.mark("block-with-tx")
+		}
+		// extension
+		w.Sync(f, sc.clock, []trace.Neighbour{trace.Honest(a)})
+		if !sameChain(f, a) {
+			sc.propFail(fmt.Sprintf("C05 extension: an honest peer holding the same chain did not adopt the produced block (height %d)", len(prev)), "sync")
+			sc.mark("adopted")
+			return
+		}
+		sc.mark("adopted")
+		// competitor
+		if g != nil {
+			w.Tick(g, sc.clock)
+			g.Log.Drain()
+			vv, _ := w.Sync(g, sc.clock, []trace.Neighbour{trace.Honest(a)})
+			_ = vv
+			last := w.Lines[len(w.Lines)-1]
+			var ln struct {
+				Obs struct {
+					Log []string `json:"log"`
+				} `json:"obs"`
+			}
+			_ = json.Unmarshal(last, &ln)
+			for _, c := range ln.Obs.Log {
+				if rejectionClasses[c] {
+					sc.propFail(fmt.Sprintf("C05 competitor: a peer holding the same chain plus its own tip rejected the honest block (height %d): %s", len(prev), c), "sync")
+					return
+				}
+			}
+		}
+		// full re-sync, now and then
+		if spare < len(w.Nodes) && r.Intn(3) == 0 && S.BlocksLimit >= 3 {
+			p := w.Nodes[spare]
+			spare++
+			w.Tick(p, T0)
+			if sc.catchUp(p, a, sc.clock, bound()) > bound() {
+				sc.propFail(fmt.Sprintf("C05 resync: a fresh peer did not reach the honest chain (length %d) within %d rounds", len(prev)+1, bound()), "sync")
+				return
+			}
+			if d := sameDerived(p, a); d != "" {
+				sc.propFail("C08 after re-sync: "+d, "sync")
+				return
+			}
+		}
+	}
+}
+
+// profile "catchup" (C08): a follower that holds a prefix (or a short private chain) pages through the
+// leader's chain; the number of rounds is checked against the bound, the state against the server's.
+func (sc *scenario) runCatchup(maxOps int) {
+	r := sc.rng
+	w := sc.w
+	S := w.S
+	a := w.Nodes[0]
+	sc.clock = T0
+	w.Tick(a, sc.clock)
+	spare := 1
+	target := 2 + r.Intn(maxOps)
+	for len(a.AllBlocks()) < target && len(w.Failures) == 0 {
+		for k := r.Intn(3); k > 0; k-- {
+			tx, _ := sc.makeTx(a, pick(r, []string{"valid", "valid", "consolidate", "yield-new", "fee-exact", "zero-output"}))
+			if tx != nil {
+				if w.Submit(a, tx).Info["submit"] == "admitted" {
+					sc.mark("admitted")
+				}
+			}
+		}
+		sc.clock += S.Interval
+		if v := w.Tick(a, sc.clock); v.Info["included"] != "0" && v.Info["included"] != "" {
+			sc.mark("block-with-tx")
+		}
+		// start a follower at a random prefix: it syncs now, then again at the end
+		if spare < len(w.Nodes) && r.Intn(5) == 0 && len(a.AllBlocks()) >= 2 {
+			f := w.Nodes[spare]
+			spare++
+			w.Tick(f, T0)
+			sc.catchUp(f, a, sc.clock, 2+ceilDiv(len(a.AllBlocks()), int(S.BlocksLimit)-1))
+		}
+	}
+	c := len(a.AllBlocks())
+	if c < 2 || S.BlocksLimit < 3 {
+		return
+	}
+	// every started follower (prefix holders) and one private newcomer catch up
+	for i := 1; i < len(w.Nodes) && len(w.Failures) == 0; i++ {
+		f := w.Nodes[i]
+		if len(f.AllBlocks()) == 0 {
+			if i > spare {
+				break
+			}
+			w.Tick(f, T0) // private chain of length 1 (shorter than C and than the page)
+		}
+		bound := 1 + ceilDiv(c, int(S.BlocksLimit)-1)
+		start := len(f.AllBlocks())
+		rounds := sc.catchUp(f, a, sc.clock, bound)
+		if rounds > bound {
+			sc.propFail(fmt.Sprintf("C08 not converged: follower starting at length %d, chain length %d, page %d, after %d rounds", start, c, S.BlocksLimit, bound), "sync")
+			return
+		}
+		sc.mark("adopted")
+		if d := sameDerived(f, a); d != "" {
+			sc.propFail("C08 after catch-up: "+d, "sync")
+			return
+		}
+		for h := 0; h <= c+2; h++ {
+			w.Read(f, uint64(h))
+		}
+	}
+}
+
+// profile "faults" (C13): many consecutive rounds with faulty neighbours only.
+func (sc *scenario) runFaults(maxOps int) {
+	r := sc.rng
+	w := sc.w
+	S := w.S
+	a := w.Nodes[0]
+	sc.clock = T0
+	hostLen := pick(r, []int{0, 1, 2, 3, 4, 6})
+	for i := 0; i < hostLen; i++ {
+		w.Tick(a, sc.clock)
+		sc.clock += S.Interval
+		if i >= 1 && r.Intn(2) == 0 {
+			if tx, _ := sc.makeTx(a, "valid"); tx != nil {
+				w.Submit(a, tx)
+			}
+		}
+		if i >= 1 && r.Intn(3) == 0 {
+			w.RegSync(a, []string{a.Validator}, nil)
+		}
+	}
+	for round := 0; round < maxOps/3 && len(w.Failures) == 0; round++ {
+		before, _, _ := a.Observe()
+		var nb []trace.Neighbour
+		k := 1 + r.Intn(8)
+		for i := 0; i < k; i++ {
+			target := fmt.Sprintf("peer%d", i)
+			switch r.Intn(6) {
+			case 0:
+				nb = append(nb, trace.Neighbour{Target: target, Kind: "error", Answer: func(uint64, int) ([]byte, error) { return nil, fmt.Errorf("down") }})
+			case 1:
+				g := pick(r, []string{"xx", "", "{}", "[1,2]", "[null]", `[{"timestamp":"x"}]`, "null", "[]", `[{"transactions":[null]}]`, `[{"transactions":[{"id":"x"}]}]`})
+				nb = append(nb, trace.Neighbour{Target: target, Kind: "garbage", Answer: func(uint64, int) ([]byte, error) { return []byte(g), nil }})
+			case 2:
+				nb = append(nb, trace.Neighbour{Target: target, Kind: "silent", Silent: true})
+			default:
+				base := a.AllBlocks()
+				if len(base) < 2 {
+					nb = append(nb, trace.Neighbour{Target: target, Kind: "error", Answer: func(uint64, int) ([]byte, error) { return nil, fmt.Errorf("down") }})
+					continue
+				}
+				h := 1 + r.Intn(len(base)-1)
+				kind := pick(r, []string{"bad-ts", "no-reward", "two-rewards", "reward-plus1", "bad-sig-tx", "unknown-input", "double-spend", "tx-future", "tx-old", "low-fee", "yield-unregistered", "unlinked", "steal"})
+				ch := sc.mutate(a, base, h, kind, len(base)-h+r.Intn(3))
+				if ch == nil {
+					continue
+				}
+				nb = append(nb, trace.Serving(target, "break:"+kind, ch, S.BlocksLimit))
+			}
+		}
+		now := sc.clock + int64(r.Intn(3))*S.Interval
+		v, _ := w.Sync(a, now, nb)
+		after, _, _ := a.Observe()
+		m := v.Info["sync"]
+		if m != "extension" && m != "resync" && m != "tipswap" {
+			jb, _ := json.Marshal([]interface{}{before.Chain, before.ById, before.ByAddr, before.Registered, before.Pending, before.Pool})
+			ja, _ := json.Marshal([]interface{}{after.Chain, after.ById, after.ByAddr, after.Registered, after.Pending, after.Pool})
+			if string(ja) != string(jb) {
+				sc.propFail("C13 state changed by a round in which no better valid chain was offered", "sync")
+				return
+			}
+		}
+		sc.mark("adopted") // a round with faulty neighbours is the non-trivial event of this profile
+	}
+}
+
 type summary struct {
 	Seed               int64          `json:"seed"`
 	Profile            string         `json:"profile"`
@@ -740,12 +1048,19 @@ func main() {
 		rng := rand.New(rand.NewSource(*seed*1_000_003 + int64(i)))
 		s := genSettings(rng, *profile)
 		nn := 1 + rng.Intn(3)
-		if *profile == "catchup" {
-			nn = 2
+		switch *profile {
+		case "catchup":
+			nn = 5
+		case "agree":
+			nn = 2 + 10
+		case "faults":
+			nn = 1
+		case "fork":
+			nn = 3
 		}
 		var validators []int
 		for k := 0; k < nn; k++ {
-			validators = append(validators, k)
+			validators = append(validators, k%5)
 		}
 		w, err := trace.NewWorld(s, 5, validators, rng, *driver, *profile != "offgrid")
 		if err != nil {
@@ -754,7 +1069,16 @@ func main() {
 		}
 		sc := &scenario{w: w, rng: rng, profile: *profile, nontriv: map[string]bool{}}
 		ops := 10 + rng.Intn(*maxOps-9)
-		sc.run(ops)
+		switch *profile {
+		case "agree":
+			sc.runAgree(ops / 3)
+		case "catchup":
+			sc.runCatchup(ops)
+		case "faults":
+			sc.runFaults(ops)
+		default:
+			sc.run(ops)
+		}
 		w.Close()
 		sum.Scenarios++
 		sum.Evaluations += w.Ops
